@@ -2,6 +2,7 @@ package ix
 
 import (
 	"encoding/json"
+	"errors"
 	"fmt"
 	"os"
 	"strconv"
@@ -30,16 +31,32 @@ func ArithParser() parsley.Parser { return arithBuild(0) }
 // SeqOf(expr, Trim(End())) with Select(0), instead of Sentence(RightTrim(expr)).
 func ArithParserExplicitEnd() parsley.Parser { return arithBuild(1) }
 
+// divByZero is an application's own error type (it implements parsley.Error).
+type divByZero struct{ at parsley.Pos }
+
+func (d divByZero) Error() string    { return "division by zero" }
+func (d divByZero) Cause() error     { return errors.New("division by zero") }
+func (d divByZero) Pos() parsley.Pos { return d.at }
+
 func arithBuild(rootStyle int) parsley.Parser {
+	// In the explicit-end formulation the interpreters are written the way an application with its own error type
+	// would write them: the division by zero is a user-defined parsley.Error, and an enclosing operator hands a
+	// child's error upwards through parsley.NewError(ownPos, err), which is documented to pass an Error through as it is.
+	up := func(node parsley.Node, err parsley.Error) parsley.Error {
+		if rootStyle == 1 {
+			return parsley.NewError(node.Pos(), err)
+		}
+		return err
+	}
 	bin := ast.InterpreterFunc(func(userCtx interface{}, node parsley.NonTerminalNode) (interface{}, parsley.Error) {
 		ch := node.Children()
 		l, err := parsley.EvaluateNode(userCtx, ch[0])
 		if err != nil {
-			return nil, err
+			return nil, up(node, err)
 		}
 		r, err := parsley.EvaluateNode(userCtx, ch[2])
 		if err != nil {
-			return nil, err
+			return nil, up(node, err)
 		}
 		a, b := l.(int64), r.(int64)
 		switch ch[1].Token() {
@@ -51,6 +68,9 @@ func arithBuild(rootStyle int) parsley.Parser {
 			return a * b, nil
 		}
 		if b == 0 {
+			if rootStyle == 1 {
+				return nil, divByZero{ch[1].Pos()}
+			}
 			return nil, parsley.NewErrorf(ch[1].Pos(), "division by zero")
 		}
 		return a / b, nil
